@@ -9,6 +9,9 @@ Definition Finite (x : float) : Prop := PrimFloat.is_finite x = true.
 (* IEEE `e <= p` *)
 Definition le_tol (e p : float) : Prop := (e <=? p) = true.
 Definition nonneg (p : float) : Prop := (0 <=? p) = true.
+(* IEEE `not (p < 0)` and `p < e` *)
+Definition not_negative (p : float) : Prop := (p <? 0) = false.
+Definition above_tol (e p : float) : Prop := (p <? e) = true.
 
 Definition DBL_MIN : float := 0x1p-1022.
 Definition smaller (x y : float) : float := if y <? x then y else x.
